@@ -32,12 +32,55 @@ NORMALISERS = {"init_line", "int_to_str", "lines_wo_spaces", "replace_spaces"}
 PARSERS = ["parsers.parse_ace_extended", "parsers.parse_ace_standard", "parsers.parse_action", "parsers.parse_address"]
 
 
+def compiled_grammar(ctx: Ctx, f: Func):
+    """(pattern text, name of the local holding the match object, match call) when `f` applies a regular expression that
+    is not the local `regex`: a module-level `re.compile(...)` constant or a direct re.match/search/fullmatch call."""
+    from ..fold import CompiledPattern
+
+    env = ctx.folder.local_env(f)
+    for n in own_nodes(f.node):
+        if isinstance(n, ast.Call) and isinstance(n.func, ast.Attribute) and n.func.attr in ("match", "search", "fullmatch") and n.args:
+            recv = ctx.folder.fold(n.func.value, f.module, env)
+            pat = None
+            if isinstance(recv, CompiledPattern):
+                pat = recv.pattern
+            elif src(n.func.value) == "re" and len(n.args) >= 2:
+                v = ctx.folder.fold(n.args[0], f.module, env)
+                pat = v if isinstance(v, str) else None
+            if pat is None:
+                continue
+            par = getattr(n, "_parent", None)
+            mname = None
+            while par is not None and not isinstance(par, ast.stmt):
+                if isinstance(par, ast.NamedExpr) and isinstance(par.target, ast.Name):
+                    mname = par.target.id
+                par = getattr(par, "_parent", None)
+            if mname is None and isinstance(par, (ast.Assign, ast.AnnAssign)):
+                tg = par.targets[0] if isinstance(par, ast.Assign) else par.target
+                if isinstance(tg, ast.Name):
+                    mname = tg.id
+            return pat, mname, n
+    return None
+
+
 def regex_pieces(ctx: Ctx, f: Func) -> Tuple[str, List[Tuple[str, int]]]:
-    """(folded regex, [(piece local name, number of capturing groups)]) from the `regex = f"..."` assignment."""
+    """(folded regex, [(piece name, number of capturing groups)]): from the `regex = f"..."` assignment (pieces are the
+    interpolated locals) or from a compiled pattern with named groups (pieces are the group names)."""
     env = ctx.folder.local_env(f)
     rx = env.get("regex", UNKNOWN)
     if not known(rx) or not isinstance(rx, str):
-        raise AnalysisError(f"{f.qualname}: local `regex` is no longer foldable")
+        cg = compiled_grammar(ctx, f)
+        if cg is None:
+            raise AnalysisError(f"{f.qualname}: neither a foldable local `regex` nor a compiled pattern applied to the line was found")
+        pat = cg[0]
+        from .. import rx as _rxm
+
+        try:
+            comp = _re.compile(pat)
+        except _re.error as ex:
+            raise AnalysisError(f"{f.qualname}: the compiled pattern does not compile: {ex}")
+        names = {i: nm for nm, i in comp.groupindex.items()}
+        return pat, [(names.get(i, f"group{i}"), 1) for i in range(1, comp.groups + 1)]
     node = None
     for n in f.node.body:
         if isinstance(n, ast.Assign) and isinstance(n.targets[0], ast.Name) and n.targets[0].id == "regex":
@@ -55,6 +98,23 @@ def regex_pieces(ctx: Ctx, f: Func) -> Tuple[str, List[Tuple[str, int]]]:
                     g = pv.count("(") - pv.count("(?")
                 pieces.append((v.value.id, g))
     return rx, pieces
+
+
+def address_alternation(ctx: Ctx, f: Func) -> Optional[str]:
+    """Text of the alternation that the ACE grammar accepts as an address: the local `addr`, or the body of the named
+    group `srcaddr` of a compiled pattern."""
+    addr = ctx.folder.local_env(f).get("addr", UNKNOWN)
+    if known(addr) and isinstance(addr, str):
+        return addr
+    cg = compiled_grammar(ctx, f)
+    if cg is not None:
+        from .. import rx as _rxm
+
+        for nm in ("srcaddr", "addr", "dstaddr"):
+            t = _rxm.group_text(cg[0], nm)
+            if t:
+                return t
+    return None
 
 
 def r01_1(ctx: Ctx, rep: Report) -> Dict[str, List[str]]:
@@ -89,6 +149,21 @@ def r01_1(ctx: Ctx, rep: Report) -> Dict[str, List[str]]:
         for n in own_nodes(f.node):
             if isinstance(n, ast.Assign) and isinstance(n.targets[0], ast.Name) and isinstance(n.value, ast.ListComp) and "strip" in src(n.value):
                 items_name = n.targets[0].id
+        named_index: Dict[str, int] = {}
+        match_name = None
+        if items_name is None:
+            # named groups: items = {k: s.strip() for k, s in m.groupdict(...).items()}  /  m.group("x")  /  m["x"]
+            cg = compiled_grammar(ctx, f)
+            if cg is not None:
+                named_index = {nm: i - 1 for nm, i in _re.compile(rx).groupindex.items()}
+                match_name = cg[1]
+                for n in own_nodes(f.node):
+                    if isinstance(n, (ast.Assign, ast.AnnAssign)) and isinstance(n.value, (ast.DictComp, ast.Call)) and "groupdict" in src(n.value):
+                        tg = n.targets[0] if isinstance(n, ast.Assign) else n.target
+                        if isinstance(tg, ast.Name):
+                            items_name = tg.id
+                if items_name is None:
+                    items_name = match_name
         if items_name is None:
             raise AnalysisError(f"{q}: the stripped group list vanished")
         locals_: Dict[str, ast.AST] = {}
@@ -101,12 +176,12 @@ def r01_1(ctx: Ctx, rep: Report) -> Dict[str, List[str]]:
         order: List[Tuple[int, str]] = []
         okq = True
         for key, v in data_keys.items():
-            idx = _group_index(v, items_name, locals_, ngroups)
+            idx = _group_index(v, items_name, locals_, ngroups, named_index, match_name)
             if idx is None:
                 if isinstance(v, ast.Constant):
                     continue  # fixed value ("ip", "any", "")
                 # result["dstport"] from the dstport/option splitter fed by one group
-                sub = _split_source(v, items_name, locals_, ngroups)
+                sub = _split_source(v, items_name, locals_, ngroups, named_index, match_name)
                 if sub is None:
                     rep.violation(q, f"{key}={snippet(v)}", "the value of this key does not come from a regex group", where(f, v))
                     okq = False
@@ -121,7 +196,7 @@ def r01_1(ctx: Ctx, rep: Report) -> Dict[str, List[str]]:
             piece = group_piece[idx]
             suffix = piece[3:] if piece.startswith("re_") else piece
             want = KEY_ALIASES.get(suffix, suffix)
-            match = key == want or key.startswith(suffix) or suffix.startswith(key) or (suffix == "dstport" and key in ("dstport", "option")) or (want == "option" and key == "option")
+            match = key == want or key.startswith(suffix) or suffix.startswith(key) or (suffix == "dstport" and key in ("dstport", "option")) or (want == "option" and key == "option") or (key in suffix.split("_") and {"dstport", "option"} >= set(suffix.split("_")))
             if not match:
                 rep.violation(q, f"{key}={snippet(v)}", f"key {key!r} is filled from group {idx}, which the grammar piece `{piece}` produces: fields are swapped", where(f, v), inp="permit ip host 1.1.1.1 any")
                 okq = False
@@ -139,8 +214,21 @@ def r01_1(ctx: Ctx, rep: Report) -> Dict[str, List[str]]:
     return orders
 
 
-def _group_index(v: ast.AST, items: str, locals_: Dict[str, ast.AST], n: int) -> Optional[int]:
+def _group_index(v: ast.AST, items: str, locals_: Dict[str, ast.AST], n: int, named: Optional[Dict[str, int]] = None, match_name: Optional[str] = None) -> Optional[int]:
     v = resolve_local(v, {k: x for k, x in locals_.items() if k != items})
+    # .strip() of a group value is still that group
+    while isinstance(v, ast.Call) and isinstance(v.func, ast.Attribute) and v.func.attr == "strip" and not v.args:
+        v = v.func.value
+    if named:
+        # items["name"] / m["name"] / m.group("name") / m.group(k)
+        if isinstance(v, ast.Subscript) and src(v.value) in (items, match_name) and isinstance(v.slice, ast.Constant) and isinstance(v.slice.value, str):
+            return named.get(v.slice.value)
+        if isinstance(v, ast.Call) and isinstance(v.func, ast.Attribute) and v.func.attr == "group" and src(v.func.value) == match_name and len(v.args) == 1 and isinstance(v.args[0], ast.Constant):
+            a = v.args[0].value
+            if isinstance(a, str):
+                return named.get(a)
+            if isinstance(a, int) and a >= 1:
+                return a - 1
     if isinstance(v, ast.Subscript) and src(v.value) == items and not isinstance(v.slice, ast.Slice):
         s = v.slice
         if isinstance(s, ast.Constant) and isinstance(s.value, int):
@@ -150,12 +238,12 @@ def _group_index(v: ast.AST, items: str, locals_: Dict[str, ast.AST], n: int) ->
     return None
 
 
-def _split_source(v: ast.AST, items: str, locals_: Dict[str, ast.AST], n: int) -> Optional[int]:
+def _split_source(v: ast.AST, items: str, locals_: Dict[str, ast.AST], n: int, named: Optional[Dict[str, int]] = None, match_name: Optional[str] = None) -> Optional[int]:
     """result["k"] where result = _parse_dstport_option(items[i])  ->  i"""
     if isinstance(v, ast.Subscript) and isinstance(v.value, ast.Name) and v.value.id in locals_:
         call = locals_[v.value.id]
         if isinstance(call, ast.Call) and call.args:
-            return _group_index(call.args[0], items, locals_, n)
+            return _group_index(call.args[0], items, locals_, n, named, match_name)
     return None
 
 
@@ -559,6 +647,28 @@ def setter_completeness(ctx: Ctx, rep: Report, rid: str = "R01.7", platforms=("i
     rep.floor(18, "concrete line setters x platforms")
 
 
+def normaliser_total(ctx: Ctx, rep: Report, rid: str = "R01.10") -> None:
+    """The text normaliser every line setter applies first accepts every string: it may reject a non-string (TypeError)
+    but must not reject by value - a ValueError raised here is swallowed by the builders' per-line error handling and
+    the line silently disappears (or a valid ACE is refused)."""
+    rep.rule(rid)
+    n = 0
+    for q in sorted(NORMALISERS - {"int_to_str"}):
+        f = ctx.prog.find_func(f"helpers.{q}")
+        if f is None:
+            continue
+        n += 1
+        rep.instance()
+        esc = ctx.excs.escapes(f)
+        bad = sorted(k for k in esc if k != "TypeError")
+        if bad:
+            site = esc[bad[0]]
+            rep.violation(f.qualname, f"raises {bad}", f"the normaliser rejects some strings ({bad}): lines that the grammar accepts are refused or dropped before they are parsed (raised at {getattr(site, 'where', site)})", where(f), inp="an ACE line longer than 100 characters inside an ACL")
+        else:
+            rep.ok(f"{f.qualname}", f"escaping exceptions {sorted(esc) or 'none'}: only the type check", where=where(f))
+    rep.require(n >= 1, "no text normaliser (helpers.init_line) found")
+
+
 def option_tokens(ctx: Ctx, rep: Report, rid: str = "R01.8") -> None:
     """Flag and log tokens are the blank-separated words of the option text: the tokeniser of Option.line setter must
     not cut inside a word (`log-input`, `match-any`, `time-range NAME` are single Cisco keywords)."""
@@ -619,6 +729,7 @@ def option_tokens(ctx: Ctx, rep: Report, rid: str = "R01.8") -> None:
 
 def run(ctx: Ctx, rep: Report, tier: str) -> None:
     option_tokens(ctx, rep)
+    normaliser_total(ctx, rep)
     # R01.9 operands of a valid ACE are accepted: the operand range is exactly the port universe (C08 R08.8)
     from .c08 import operand_range
 
